@@ -2248,7 +2248,7 @@ func (e *Engine) intrinsic(st *State, f *Frame, x *ssa.Call, fn *ssa.Function, n
 		e.flush(st)
 		var vals []uint64
 		block := []*Term{}
-		for len(vals) <= 64 {
+		for len(vals) <= 256 {
 			r, m := e.check(append(append(append([]*Term(nil), st.pc...), block...)))
 			if r != RSat {
 				break
@@ -2257,8 +2257,8 @@ func (e *Engine) intrinsic(st *State, f *Frame, x *ssa.Call, fn *ssa.Function, n
 			vals = append(vals, v)
 			block = append(block, Not(Eq(t, Const(t.S.W, v))))
 		}
-		if len(vals) > 64 {
-			panic("verifConcretize: more than 64 feasible values")
+		if len(vals) > 256 {
+			panic("verifConcretize: more than 256 feasible values")
 		}
 		if len(vals) == 0 {
 			panic(pathEnd{"concretize: infeasible"})
@@ -2476,6 +2476,11 @@ func (e *Engine) intrinsic(st *State, f *Frame, x *ssa.Call, fn *ssa.Function, n
 	case "verifBytesEq":
 		a, b := args[0].(SliceV), args[1].(SliceV)
 		return e.stringEq(st, StringV{Obj: a.Obj, Off: a.Off, Len: a.Len}, StringV{Obj: b.Obj, Off: b.Off, Len: b.Len}), true
+	}
+	if strings.HasPrefix(name, "google.golang.org/protobuf/proto.") && strings.HasSuffix(name, "Extension") {
+		if r, ok := e.extModelCall(st, x, name, args); ok {
+			return r, true
+		}
 	}
 	switch name {
 	case "fmt.Errorf":
